@@ -18,6 +18,7 @@ type Env struct {
 	defs      map[string]Expr // contract-level definitions (macros)
 	pkg       string          // package of the contract (for package-level macros)
 	freshBase *Term           // allocation counter at the start of the call whose contract is evaluated
+	renaming  bool            // resolving a renamed local (see renamedLocal)
 }
 
 type vNil struct{}
@@ -386,6 +387,19 @@ func (ex *Exec) evalIdent(st *State, name string, env *Env, cl *Clause) Value {
 		}
 		if n > 1 {
 			ex.evalFail(cl, "ambiguous local variable %q (%d live declarations)", name, n)
+		}
+	}
+	var nameFn *ssa.Function
+	if env.fr != nil {
+		nameFn = env.fr.fn
+	} else if ex.applyingFn != nil {
+		nameFn = ex.applyingFn // a contract applied at a call site: the callee's names
+	}
+	if nameFn != nil && !env.renaming {
+		if other, ok := ex.renamedLocal(nameFn, name); ok {
+			env.renaming = true
+			defer func() { env.renaming = false }()
+			return ex.evalIdent(st, other, env, cl)
 		}
 	}
 	ex.evalFail(cl, "unknown identifier %q", name)
